@@ -108,10 +108,82 @@ func main() {
 			})
 		}
 	}
+	// package-level variables written by ordinary code (not by init bodies): shared plain memory.
+	// Every simple statement that mentions one gets a scheduling point in front of it, so that
+	// unsynchronised use of such a variable (a scratch buffer, a cache) can interleave.
+	mutable := map[types.Object]bool{}
+	markTarget := func(e ast.Expr) {
+		for {
+			switch x := ast.Unparen(e).(type) {
+			case *ast.IndexExpr:
+				e = x.X
+				continue
+			case *ast.SliceExpr:
+				e = x.X
+				continue
+			case *ast.SelectorExpr:
+				if _, isPkg := pkg.TypesInfo.Uses[identOf(x.X)].(*types.PkgName); isPkg {
+					return
+				}
+				e = x.X
+				continue
+			case *ast.StarExpr:
+				e = x.X
+				continue
+			case *ast.Ident:
+				if v, ok := pkg.TypesInfo.Uses[x].(*types.Var); ok && v.Parent() == pkg.Types.Scope() {
+					mutable[v] = true
+				}
+			}
+			return
+		}
+	}
+	for _, f := range pkg.Syntax {
+		for _, d := range f.Decls {
+			fd, ok := d.(*ast.FuncDecl)
+			if !ok || fd.Body == nil {
+				continue
+			}
+			isInit := fd.Recv == nil && fd.Name.Name == "init"
+			var walk func(n ast.Node, inLit bool)
+			walk = func(n ast.Node, inLit bool) {
+				ast.Inspect(n, func(m ast.Node) bool {
+					switch x := m.(type) {
+					case *ast.FuncLit:
+						if m != n {
+							walk(x.Body, true)
+							return false
+						}
+					case *ast.AssignStmt:
+						if !isInit || inLit {
+							for _, l := range x.Lhs {
+								markTarget(l)
+							}
+						}
+					case *ast.IncDecStmt:
+						if !isInit || inLit {
+							markTarget(x.X)
+						}
+					case *ast.UnaryExpr:
+						if x.Op == token.AND && (!isInit || inLit) {
+							markTarget(x.X)
+						}
+					case *ast.CallExpr:
+						// append(v, ...) / copy(v[...], ...) / clear(v) / delete(v, k) on a package variable
+						if id, ok := x.Fun.(*ast.Ident); ok && (id.Name == "copy" || id.Name == "clear" || id.Name == "delete") && len(x.Args) > 0 && (!isInit || inLit) {
+							markTarget(x.Args[0])
+						}
+					}
+					return true
+				})
+			}
+			walk(fd.Body, false)
+		}
+	}
 	var reinitFuncs []string
 	for i, f := range pkg.Syntax {
 		name := filepath.Base(pkg.CompiledGoFiles[i])
-		r := &rewriter{fset: pkg.Fset, info: pkg.TypesInfo, file: f, name: name, pkg: pkg.Types, initRefs: initRefs}
+		r := &rewriter{fset: pkg.Fset, info: pkg.TypesInfo, file: f, name: name, pkg: pkg.Types, initRefs: initRefs, mutable: mutable}
 		out := r.run()
 		if r.reinitName != "" {
 			reinitFuncs = append(reinitFuncs, r.reinitName)
@@ -208,6 +280,86 @@ type rewriter struct {
 	tmp     int
 	initRefs   map[types.Object]bool
 	reinitName string
+	mutable    map[types.Object]bool
+	inInit     bool
+}
+
+func identOf(e ast.Expr) *ast.Ident {
+	id, _ := ast.Unparen(e).(*ast.Ident)
+	return id
+}
+
+// mentionsMutable returns the name of a mutable package-level variable the
+// expressions mention (function literals are not entered), or "".
+func (r *rewriter) mentionsMutable(exprs ...ast.Node) string {
+	found := ""
+	for _, e := range exprs {
+		if e == nil || found != "" {
+			continue
+		}
+		ast.Inspect(e, func(n ast.Node) bool {
+			if found != "" {
+				return false
+			}
+			switch x := n.(type) {
+			case *ast.FuncLit:
+				return false
+			case *ast.Ident:
+				if v, ok := r.info.Uses[x].(*types.Var); ok && r.mutable[v] {
+					found = v.Name()
+				}
+			}
+			return true
+		})
+	}
+	return found
+}
+
+// sharedVarYield inserts a scheduling point before a statement of a statement
+// list that reads or writes shared plain memory.
+func (r *rewriter) sharedVarYield(c *astutil.Cursor, n ast.Stmt) {
+	if c.Index() < 0 || r.inInit {
+		return
+	}
+	name := ""
+	switch x := n.(type) {
+	case *ast.AssignStmt:
+		var nodes []ast.Node
+		for _, e := range x.Lhs {
+			nodes = append(nodes, e)
+		}
+		for _, e := range x.Rhs {
+			nodes = append(nodes, e)
+		}
+		name = r.mentionsMutable(nodes...)
+	case *ast.ExprStmt:
+		name = r.mentionsMutable(x.X)
+	case *ast.IncDecStmt:
+		name = r.mentionsMutable(x.X)
+	case *ast.ReturnStmt:
+		var nodes []ast.Node
+		for _, e := range x.Results {
+			nodes = append(nodes, e)
+		}
+		name = r.mentionsMutable(nodes...)
+	case *ast.IfStmt:
+		if x.Init != nil {
+			name = r.mentionsMutable(x.Init)
+		}
+		if name == "" {
+			name = r.mentionsMutable(x.Cond)
+		}
+	case *ast.SwitchStmt:
+		if x.Tag != nil {
+			name = r.mentionsMutable(x.Tag)
+		}
+	case *ast.RangeStmt:
+		name = r.mentionsMutable(x.X)
+	}
+	if name != "" {
+		c.InsertBefore(r.yieldStmt(r.site(n, "shared:"+name)))
+		rep.Rewrites["shared_var_yield"]++
+	}
 }
 
 func (r *rewriter) site(n ast.Node, kind string) ast.Expr {
@@ -433,6 +585,12 @@ func (r *rewriter) reinitBody() string {
 }
 
 func (r *rewriter) pre(c *astutil.Cursor) bool {
+	if fd, ok := c.Node().(*ast.FuncDecl); ok {
+		r.inInit = fd.Recv == nil && fd.Name.Name == "init"
+	}
+	if st, ok := c.Node().(ast.Stmt); ok {
+		r.sharedVarYield(c, st)
+	}
 	switch n := c.Node().(type) {
 	case *ast.SelectStmt:
 		nonDefault := 0
